@@ -43,6 +43,7 @@ from afkak.kafkacodec import KafkaCodec
 import attr
 from twisted.internet.defer import CancelledError, Deferred, DeferredList, inlineCallbacks
 from twisted.internet.task import LoopingCall
+from twisted.python.failure import Failure
 
 log = logging.getLogger(__name__)
 
@@ -486,7 +487,13 @@ class Coordinator(object):
                     topic_partitions={},
                 )
             except _NeedTopicPartitions as e:
-                topic_partitions = yield self.client._load_topic_partitions(*e.topics)
+                try:
+                    topic_partitions = yield self.client._load_topic_partitions(*e.topics)
+                except KafkaError:
+                    # Couldn't get the partition lists: rejoin after a delay
+                    # rather than staying out of the group for good.
+                    self.rejoin_after_error(Failure(), label="load_topic_partitions")
+                    return
                 assignments = yield self.protocol.generate_assignments(
                     join_response.members,
                     topic_partitions=topic_partitions,
